@@ -30,7 +30,7 @@ def run(ctx):
         from ..rules_out import check_rh_emit
         from ..rules_parse import RelabelLedger, parse_summary
 
-        parse_summary(ctx, v, RelabelLedger(led, "C08.model", keep=("C04.store.key", "C04.store.value", "C04.store"), strip="C04."))
+        parse_summary(ctx, v, RelabelLedger(led, "C08.model", keep=("C04.store.key", "C04.store.value", "C04.store", "C04.semantic.overaccept", "C04.semantic.store"), strip="C04."))
         check_rh_emit(ctx, RelabelLedger(led, "C08.rh", strip="C12."), v)
         from ..rules_access import check_accessors
 
